@@ -97,6 +97,16 @@ func ModOps(full bool) []Op {
 	}
 	add("AddRequire", "a.com/x/v2", "v2.0.0")
 	add("DropRequire", "a.com/x/v2")
+	// versions with build metadata that is part of the canonical form
+	add("AddExclude", "b.com/y", "v2.0.0+incompatible")
+	add("DropExclude", "b.com/y", "v2.0.0+incompatible")
+	add("AddRequire", "b.com/y", "v2.0.0+incompatible")
+	add("AddRetract", "v2.0.0+incompatible", "v2.0.0+incompatible", "wrong major")
+	add("DropRetract", "v2.0.0+incompatible", "v2.0.0+incompatible")
+	if full {
+		add("AddReplace", "b.com/y", "v2.0.0+incompatible", "c.com/z", "v1.2.0")
+		add("DropReplace", "b.com/y", "v2.0.0+incompatible")
+	}
 	for _, p := range paths {
 		for _, ov := range []string{"", "v1.0.0"} {
 			add("AddReplace", p, ov, "c.com/z", "v1.2.0")
